@@ -17,7 +17,7 @@ for f in out/$P/demo/*; do
   esac
 done
 run_demo() {
-  if [ -n "$SH" ]; then cargo build --offline -p chiritori-cli 2>&1 | tail -1; sh "$SH"; echo "demo script exit=$?";
+  if [ -n "$SH" ]; then cargo build --offline -p chiritori-cli 2>&1 | tail -1; if head -1 "$SH" | grep -q bash; then bash "$SH"; else sh "$SH"; fi; echo "demo script exit=$?";
   else for f in chiritori/tests/seed_demo_*.rs; do n=$(basename $f .rs); cargo test -p chiritori --test $n --offline 2>&1 | grep -E "^test result|error(\[|:)"; done; fi
 }
 echo "== demo WITH patch (must fail)"; run_demo
